@@ -219,6 +219,11 @@ class MappingStorage:
             # Step 2, GC.  A simple sweep+copy
             new_data = BTrees.OOBTree.OOBTree()
             to_copy = {ZODB.utils.z64}
+            # Like FileStorage, keep everything written after the pack
+            # time, so that later transactions stay complete.
+            for oid, tid_data in self._data.items():
+                if tid_data.maxKey() > stop:
+                    to_copy.add(oid)
             while to_copy:
                 oid = to_copy.pop()
                 tid_data = self._data.pop(oid)
